@@ -126,6 +126,15 @@ class Series:
 
     def cap_guard(self, test, env, frame):
         """(series class, relation) if test compares len(<series>) with the capacity: relation in '>' '>=' '<' '<=' ..."""
+        if is_self_attr(test) and isinstance(test, ast.Attribute):
+            # a read-only property of the sensor whose getter is one comparison (`self.is_full`): the comparison
+            from ..norm import simple_return
+            for k in self.c.mro:
+                if test.attr in k.props and 'get' in k.props[test.attr]:
+                    ret = simple_return(k.props[test.attr]['get'])
+                    if ret is not None:
+                        test = ret
+                    break
         if not (isinstance(test, ast.Compare) and len(test.ops) == 1):
             return None
         l, r = test.left, test.comparators[0]
